@@ -85,3 +85,21 @@ func VerifResetRegistry(rm *RegistrationManager) {
 // VerifIngest runs the station's real ingest path on a registration object (what an ingest worker
 // does after parsing a message).
 func VerifIngest(rm *RegistrationManager, reg *DecoyRegistration) { rm.ingestRegistration(reg) }
+
+// VerifShiftTimesOf makes one registration's (phantom, identifier) time-out record look d older.
+func VerifShiftTimesOf(rm *RegistrationManager, reg *DecoyRegistration, d time.Duration) {
+	r := rm.registeredDecoys
+	r.m.Lock()
+	defer r.m.Unlock()
+	t, ok := r.transports[reg.Transport]
+	if !ok {
+		return
+	}
+	id := t.GetIdentifier(reg)
+	ph := reg.PhantomIp.String()
+	for _, to := range r.decoysTimeouts {
+		if to.decoy == ph && to.identifier == id {
+			to.registrationTime = to.registrationTime.Add(-d)
+		}
+	}
+}
